@@ -24,7 +24,7 @@ package graph
 //@ ghost infoot(g *Graph, m Inner) bool = exists(k, any, has(g.hash, k) && (g.adjacencyOut[k] == m || g.adjacencyIn[k] == m))
 
 // wf: the representation invariant of DESIGN.md §3.1.
-//@ ghost wf(g *Graph) bool =
+//@ xpred wf(g *Graph) bool =
 //@     g.adjacencyOut != nil && g.adjacencyIn != nil && g.hash != nil && g.adjacencyOut != g.adjacencyIn
 //@     && forall(k, any, has(g.adjacencyOut, k) == has(g.hash, k) && has(g.adjacencyIn, k) == has(g.hash, k))
 //@     && forall(k, any, imp(has(g.hash, k), g.adjacencyOut[k] != nil && g.adjacencyIn[k] != nil && hc(g.hash[k]) == k))
@@ -35,14 +35,14 @@ package graph
 //@ ghost wf0(g *Graph) bool = zerog(g) || wf(g)
 
 // frame: nothing outside g's own footprint (as of the old state) changes.
-//@ ghost frameG(g *Graph) bool =
+//@ xpred frameG(g *Graph) bool =
 //@     forall(x, *Graph, imp(old(allocated(x)) && x != g, x.adjacencyOut == old(x.adjacencyOut) && x.adjacencyIn == old(x.adjacencyIn) && x.hash == old(x.hash)))
 //@     && forall(m, Outer, imp(old(allocated(m)) && m != old(g.adjacencyOut) && m != old(g.adjacencyIn), unchanged(m)))
 //@     && forall(m, HashM, imp(old(allocated(m)) && m != old(g.hash), unchanged(m)))
 //@     && forall(m, Inner, imp(old(allocated(m)) && !old(infoot(g, m)), unchanged(m)))
 // the three references of an initialised graph never change
-//@ ghost footGrows(g *Graph) bool = forall(m, Inner, imp(infoot(g, m), old(infoot(g, m)) || fresh(m)))
-//@ ghost innerStable(g *Graph) bool = forall(k, any, imp(old(has(g.hash, k)) && has(g.hash, k), g.adjacencyOut[k] == old(g.adjacencyOut[k]) && g.adjacencyIn[k] == old(g.adjacencyIn[k])))
+//@ xpred footGrows(g *Graph) bool = forall(m, Inner, imp(infoot(g, m), old(infoot(g, m)) || fresh(m)))
+//@ xpred innerStable(g *Graph) bool = forall(k, any, imp(old(has(g.hash, k)) && has(g.hash, k), g.adjacencyOut[k] == old(g.adjacencyOut[k]) && g.adjacencyIn[k] == old(g.adjacencyIn[k])))
 //@ ghost sameRefs(g *Graph) bool = imp(!old(zerog(g)), g.adjacencyOut == old(g.adjacencyOut) && g.adjacencyIn == old(g.adjacencyIn) && g.hash == old(g.hash))
 //@ ghost sameVerts(g *Graph) bool = forall(k, any, has(g.hash, k) == old(has(g.hash, k)) && g.hash[k] == old(g.hash[k]))
 //@ ghost sameEdges(g *Graph) bool = forall(a, any, b, any, edge(g, a, b) == old(edge(g, a, b)) && imp(edge(g, a, b), wgt(g, a, b) == old(wgt(g, a, b))))
